@@ -339,6 +339,8 @@ def _flow_func(run, P, f, meth, rule="C08.flow"):
                     return True
         return False
 
+    _skip_and_subtract(run, P, f, stmts, is_source, rule)
+
     for s in stmts:
         if isinstance(s, (ast.FunctionDef, ast.ClassDef)):
             continue
@@ -374,6 +376,70 @@ def _flow_func(run, P, f, meth, rule="C08.flow"):
             run.ob(rule, f, s, ok,
                    construct=f"{norm(c, 60)} in {norm(s, 90)}",
                    why=why or "flows to the return value")
+
+
+def _arg_names(call):
+    out = set()
+    for a in call.args:
+        out |= {x.id for x in ast.walk(a) if isinstance(x, ast.Name)}
+    return out
+
+
+def _skip_and_subtract(run, P, f, stmts, is_source, rule):
+    """(a) inside a loop, a `continue` (or an enclosing if) whose test looks at
+    one operand must not skip the collection of a different operand;
+    (b) names are removed from the set only before anything from outside the
+    binding field has been collected."""
+    for lp in ast.walk(f.node):
+        if not isinstance(lp, ast.For):
+            continue
+        targets = {x.id for x in ast.walk(lp.target) if isinstance(x, ast.Name)}
+        guards = []
+        for i, s_ in enumerate(lp.body):
+            if isinstance(s_, ast.If) and any(isinstance(x, (ast.Continue, ast.Break))
+                                              for x in ast.walk(s_)):
+                tn = {x.id for x in ast.walk(s_.test) if isinstance(x, ast.Name)} & targets
+                if tn:
+                    guards.append((i, s_, tn))
+        for i, g, tn in guards:
+            for s_ in lp.body[i + 1:]:
+                for c in [x for x in ast.walk(s_) if is_source(x)]:
+                    an = _arg_names(c) & targets
+                    if an and not (an <= tn):
+                        run.ob(rule, f, g, False,
+                               construct=f"'{norm(g.test, 50)}' skips the collection of "
+                                         f"{norm(c, 50)}",
+                               why=f"whether {sorted(an)} is collected depends on another "
+                                   f"operand ({sorted(tn)}): its variables are silently "
+                                   f"missing from the read set for some statements")
+    # (b) subtraction order
+    order = []
+    for s_ in stmts:
+        if isinstance(s_, (ast.FunctionDef, ast.ClassDef)):
+            continue
+        if isinstance(s_, ast.AugAssign) and isinstance(s_.op, ast.Sub):
+            order.append(("sub", s_))
+        elif any(is_source(x) for x in _own_walk(s_)):
+            order.append(("collect", s_))
+    bound_in = {"solve_variables": "expressions"}
+    for i, (kind, node) in enumerate(order):
+        if kind != "sub":
+            continue
+        src = ast.unparse(node.value)
+        fld = [b for b in bound_in if b in src]
+        if not fld:
+            continue
+        before = [n for k, n in order[:i] if k == "collect"]
+        bad = [b for b in before
+               if not any(isinstance(x, ast.Attribute) and x.attr == bound_in[fld[0]]
+                          for x in ast.walk(b))]
+        tgt = norm(node.value)
+        run.ob(rule, f, node, not bad,
+               construct=f"removal of {tgt} comes after {len(before)} collection(s), "
+                         f"{len(bad)} of them from outside '{bound_in[fld[0]]}'",
+               why=f"'{fld[0]}' are bound in '{bound_in[fld[0]]}' only: removing them after "
+                   f"collecting other fields drops reads of the guard or of solver "
+                   f"parameters that happen to have the same name")
 
 
 def _own_walk(s):
